@@ -37,6 +37,18 @@ Oracle (models/outevent_model.py, written from docs/events.rst + the property):
   chain previous(k+1) is value(k), first previous UNDEF, events iff previous != computed,
   output after the evaluation is the last event's value.
 
+Added after the seeded-change round 3 (C02-s7/s8/s9):
+  * FSM senders (edzed.Timer restartable or not, edzed.InputExp, a generic FSM whose
+    calc_output maps states to planned values incl. UNDEF): a transition that leaves the output
+    unchanged is an assignment, on_every_output is due (C02/missing-assignment/<kind>);
+  * every reception records the outputs of all senders at that moment and the stock filters
+    DataEdit.add_output / IfOutput read the sender's output during delivery: value = the new
+    output already then, for combinational senders too (C02/output-during-delivery/...);
+  * events addressed to '_ctrl' (shutdown / abort, plain and EventCond, usually filtered so that
+    they fire in mid-run) in the middle of on_output / on_every_output lists, and Setter probes
+    that assign a last value in stop(): brackets are judged until the simulation task has
+    ended; an output change after the stop request still owes its on_output events.
+
 Sensitivity sweep. Each mutant applied to a scratch copy of /repo, `VERIF_REPO=<copy> ./check C02`;
 all were caught within the first 8000 runs of the quick tier (quick = 100000 runs), exit 1.
 Columns: mutant | what it needs to show up | dominant signature.
@@ -88,7 +100,8 @@ from simkit import seams
 from simkit.runner import Run, PlanError, gen_knobs
 from models.outevent_model import (
     OutEventModel, ModelError, Ev, Blk, NOVAL, forward_data, setter_values, input_check,
-    REC_ETYPES, SETTER_ETYPES, INPUT_ETYPES, COUNTER_ETYPES)
+    REC_ETYPES, SETTER_ETYPES, INPUT_ETYPES, COUNTER_ETYPES, TIMER_ETYPES, INPUTEXP_ETYPES,
+    GFSM_ETYPES, CTRL_ETYPES, FSM_KINDS, SENDER_KINDS, GFSM_TABLE)
 
 edzed = seams.install()
 UNDEF = edzed.UNDEF
@@ -100,7 +113,11 @@ CHUNK = 500
 RULE = ("one run = one generated acyclic circuit (2-9 blocks in random creation order: Setter "
         "probe / Input / Counter / FuncBlock senders with 0-3 on_output and 0-3 on_every_output "
         "events in every accepted notation, 0-3 filters per event, EventCond types; recorder "
-        "probes, forwarding recorders and other senders as destinations) + initial values, "
+        "probes, forwarding recorders and other senders as destinations; FSM senders Timer / "
+        "InputExp / a generic 3-state FSM; some events address the control block '_ctrl' "
+        "(shutdown/abort in mid-run, further events of the same trigger follow); some Setter "
+        "probes assign a last value in stop(); every reception records all senders' outputs) "
+        "+ initial values, "
         "optional external events before the initialisation and 1-30 external events in bursts "
         "with/without yielding, values from a pool of equal-but-not-identical objects; every "
         "16th run index uses one sender + recorders and only the 1/True/1.0 and 0/False/0.0/"
@@ -115,7 +132,8 @@ REACH_EXPECTED = [
     'cblock_event', 'cblock_to_sblock', 'cblock_unchanged_eval', 'cblock_glitch_free_burst',
     'multi_assign_one_event', 'input_rejected', 'cond_none', 'cond_event', 'both_kinds',
     'three_events_one_trigger', 'shared_event_object', 'dest_by_name_created_later',
-    'burst_without_yield']
+    'burst_without_yield', 'fsm_unchanged_every', 'fsm_undef_output', 'ctrl_event',
+    'change_after_stop_request', 'stop_assignment', 'addout_filter']
 ASSUMPTIONS = [
     "identity of objects is judged where the harness can observe it: two different pool "
     "objects are different even when equal; values computed by edzed (Counter arithmetic) are "
@@ -125,9 +143,15 @@ ASSUMPTIONS = [
     "the order in which edzed initialises sequential blocks is consumed from the observation",
     "the probe blocks' own behaviour (Setter: which values it assigns; recorder: what it "
     "forwards) is harness code shared with the model",
+    "output events are owed for every assignment between the start of the simulation task and "
+    "its end, also after a shutdown/abort request and during the clean-up (the property does "
+    "not say 'only while the circuit is ready')",
+    "FSM senders never reach a timer expiry within a run (InputExp duration 1000 s, Timer "
+    "without durations): timed transitions are C04's business",
 ]
-REAL_EXTRA = ["edzed.Input, edzed.Counter, edzed.FuncBlock, edzed.EventCond, "
-              "edzed.not_from_undef, edzed.Edge, edzed.DataEdit"]
+REAL_EXTRA = ["edzed.Input, edzed.Counter, edzed.FuncBlock, edzed.Not, edzed.Timer, edzed.InputExp, "
+              "edzed.FSM (generic subclass), edzed.ControlBlock ('_ctrl'), edzed.EventCond, "
+              "edzed.not_from_undef, edzed.Edge, edzed.DataEdit (incl. add_output), edzed.IfOutput"]
 STUB_EXTRA = ["Setter and recorder probe blocks (subclasses of the real edzed.SBlock); "
               "pass-through wrappers (instance attributes) around set_output, eval_block and "
               "calc_output of the senders"]
@@ -199,7 +223,7 @@ FILTER_KINDS_ANY = ['pass', 'one', 'passd', 'veto', 'none', 'zero', 'truthy', 'n
 FILTER_KINDS_LAST = ['delprev', 'only']
 
 
-def gen_filters(rng, fwd=False):
+def gen_filters(rng, fwd=False, owner=None):
     r = rng.random()
     n = 0 if r < 0.5 else 1 if r < 0.8 else 2 if r < 0.93 else 3
     flist = []
@@ -210,7 +234,12 @@ def gen_filters(rng, fwd=False):
             kind = rng.choice(FILTER_KINDS_ANY)
         if fwd and kind == 'edge':      # forwarded data carry no 'previous'
             kind = 'truthy'
+        if not fwd and owner is not None and rng.random() < 0.12:
+            # stock filters that read the SENDER's output while its event is being delivered
+            kind = rng.choice(['addout', 'addout', 'ifout'])
         arg = None
+        if kind in ('addout', 'ifout'):
+            arg = owner
         if kind == 'edge':
             arg = [rng.random() < 0.6, rng.random() < 0.6, rng.choice([None, None, True, False]),
                    rng.random() < 0.4]
@@ -225,10 +254,28 @@ def gen_filters(rng, fwd=False):
 
 def dest_etypes(kind):
     return {'rec': list(REC_ETYPES), 'setter': ['set', 'set', 'dbl', 'pair'],
-            'input': ['put'], 'counter': ['inc', 'dec']}[kind]
+            'input': ['put'], 'counter': ['inc', 'dec'], 'timer': list(TIMER_ETYPES),
+            'inputexp': ['put'], 'gfsm': list(GFSM_ETYPES)}[kind]
 
 
-def gen_event(rng, dests, fwd=False):
+def gen_ctrl_event(rng):
+    """An event asking the control block to stop the simulation - usually in mid-run."""
+    r = rng.random()
+    if r < 0.4:
+        flist = [{'k': 'nfu', 'a': None}]           # the first change after the initialisation
+    elif r < 0.7:
+        flist = [{'k': 'veq', 'a': rng.choice(SMALL_VALUES + [rng.randrange(NPOOL)])}]
+    elif r < 0.85:
+        flist = [{'k': 'truthy', 'a': None}]
+    else:
+        flist = []
+    etype = rng.choice(['shutdown', 'shutdown', 'shutdown', 'abort', ['cond', 'shutdown', None],
+                        ['cond', None, 'abort']])
+    return {'dest': '_ctrl', 'byname': True, 'etype': etype,
+            'filters': {'form': 'list', 'list': flist}}
+
+
+def gen_event(rng, dests, fwd=False, owner=None):
     """dests: [(name, kind)] candidates."""
     recs = [d for d in dests if d[1] == 'rec']
     if recs and rng.random() < 0.7:
@@ -240,7 +287,7 @@ def gen_event(rng, dests, fwd=False):
         etype = ['cond', rng.choice(etypes + [None]), rng.choice(etypes + [None])]
     else:
         etype = rng.choice(etypes)
-    filters = gen_filters(rng, fwd)
+    filters = gen_filters(rng, fwd, owner)
     if kind == 'rec' and rng.random() < 0.08:
         # a filter may return an EMPTY mapping: that is an edit (the destination gets no
         # items at all), not a veto; only recorders accept events without a value
@@ -253,12 +300,16 @@ def gen_event(rng, dests, fwd=False):
             'filters': filters}
 
 
-def gen_evlist(rng, dests, weights, fwd=False):
+def gen_evlist(rng, dests, weights, fwd=False, owner=None, ctrl=0.0):
     if not dests:
         n = 0
     else:
         n = rng.choices([0, 1, 2, 3], weights)[0]
-    events = [gen_event(rng, dests, fwd) for _ in range(n)]
+    events = [gen_event(rng, dests, fwd, owner) for _ in range(n)]
+    if ctrl and n < 3 and rng.random() < ctrl:
+        # ... followed (and preceded) by ordinary events of the same trigger
+        events.insert(rng.randrange(n + 1), gen_ctrl_event(rng))
+        n += 1
     if n == 0:
         form = rng.choice(['omit', 'none', 'tuple', 'list'])
     elif n == 1:
@@ -291,12 +342,14 @@ def gen(rng, tier, index=0):
     nfunc = 0
     for rank in range(nblk):
         if rank == 0:
-            kind = rng.choice(['setter', 'setter', 'input', 'counter'])
+            kind = rng.choice(['setter', 'setter', 'setter', 'input', 'input', 'counter',
+                               'timer', 'inputexp', 'gfsm'])
         elif small:
             kind = 'rec'
         else:
-            kind = rng.choices(['setter', 'input', 'counter', 'func', 'rec'],
-                               [0.17, 0.14, 0.09, 0.22 if nfunc < 3 else 0.0, 0.38])[0]
+            kind = rng.choices(
+                ['setter', 'input', 'counter', 'timer', 'inputexp', 'gfsm', 'func', 'rec'],
+                [0.14, 0.11, 0.07, 0.05, 0.05, 0.05, 0.2 if nfunc < 3 else 0.0, 0.33])[0]
         if kind == 'func':
             nfunc += 1
         kinds.append(kind)
@@ -305,7 +358,8 @@ def gen(rng, tier, index=0):
     names = []
     counters = {}
     for kind in kinds:
-        prefix = {'setter': 'S', 'input': 'I', 'counter': 'C', 'func': 'F', 'rec': 'R'}[kind]
+        prefix = {'setter': 'S', 'input': 'I', 'counter': 'C', 'func': 'F', 'rec': 'R',
+                  'timer': 'T', 'inputexp': 'X', 'gfsm': 'G'}[kind]
         counters[prefix] = counters.get(prefix, 0) + 1
         names.append(f"{prefix}{counters[prefix]}")
     blocks = []
@@ -317,9 +371,11 @@ def gen(rng, tier, index=0):
             if dests and rng.random() < 0.25:
                 b['fwd'] = gen_evlist(rng, dests, [0, 0.75, 0.25, 0], fwd=True)
         else:
-            b['on_output'] = gen_evlist(rng, dests, [0.12, 0.43, 0.25, 0.2])
+            b['on_output'] = gen_evlist(rng, dests, [0.12, 0.43, 0.25, 0.2], owner=name, ctrl=0.05)
             if kind != 'func':
-                b['on_every_output'] = gen_evlist(rng, dests, [0.4, 0.33, 0.15, 0.12])
+                b['on_every_output'] = gen_evlist(
+                    rng, dests, [0.4, 0.33, 0.15, 0.12] if kind not in FSM_KINDS
+                    else [0.15, 0.5, 0.2, 0.15], owner=name, ctrl=0.02)
                 oo = b['on_output']['events']
                 eo = b['on_every_output']['events']
                 if oo and eo and rng.random() < 0.2:
@@ -329,6 +385,21 @@ def gen(rng, tier, index=0):
             b['init'] = pick_value(rng, None, small)
             b['initvia'] = rng.choice(['reg', 'def'])
             b['alt'] = pick_value(rng, None, small)
+            if rng.random() < 0.25:
+                # the probe assigns a last value in its stop(), i.e. during the clean-up
+                b['stopval'] = pick_value(rng, b['init'], small)
+        elif kind == 'timer':
+            b['init'] = rng.choice(['off', 'off', 'on'])
+            b['restartable'] = rng.random() < 0.7
+        elif kind == 'inputexp':
+            b['expired'] = pick_value(rng, None, small)
+            if rng.random() < 0.6:
+                b['init'] = pick_value(rng, b['expired'], small)
+        elif kind == 'gfsm':
+            first = pick_value(rng, None, small)
+            b['outmap'] = {'a': first, 'b': pick_value(rng, first, small),
+                           'c': rng.choice(['U', pick_value(rng, first, small)])}
+            b['init'] = rng.choice(['a', 'a', 'b'])
         elif kind == 'input':
             b['check'] = rng.choice([None, None, 'notnone', 'nottuple'])
             while True:
@@ -354,7 +425,7 @@ def gen(rng, tier, index=0):
     rng.shuffle(order)
     blocks = [blocks[i] for i in order]
 
-    sblocks = [b for b in blocks if b['kind'] in ('setter', 'input', 'counter')]
+    sblocks = [b for b in blocks if b['kind'] in ('setter', 'input', 'counter') + FSM_KINDS]
     sblocks.sort(key=lambda b: b['rank'])
     last = {}
 
@@ -371,6 +442,14 @@ def gen(rng, tier, index=0):
                 op['amt'] = rng.choice([0, 1, 2, 3, -1, 5])
             if op['ev'] == 'put':
                 op['v'] = rng.choice(NUMERIC)
+        elif b['kind'] == 'timer':
+            op['ev'] = rng.choice(['start', 'start', 'stop', 'toggle'])
+        elif b['kind'] == 'gfsm':
+            op['ev'] = rng.choice(['next', 'next', 'stay', 'stay', 'back'])
+        elif b['kind'] == 'inputexp':
+            op['ev'] = 'put'
+            op['v'] = pick_value(rng, last.get(name, b.get('init', b['expired'])), small)
+            last[name] = op['v']
         else:
             op['ev'] = 'put' if b['kind'] == 'input' else rng.choice(['set'] * 6 + ['dbl', 'pair'])
             op['v'] = pick_value(rng, last.get(name, b['init']), small)
@@ -405,6 +484,20 @@ class Setter(edzed.SBlock):
             self.set_output(value)
         return 'ok'
 
+    def stop(self):
+        if self.x_stopval is not NOVAL:
+            self.x_stop_hook(self)      # an output assignment during the clean-up
+        super().stop()
+
+
+class GFsm(edzed.FSM):
+    """Small generic FSM sender; calc_output maps the state to a planned value."""
+    STATES = ['a', 'b', 'c']
+    EVENTS = [(_ev, _st, _new) for (_ev, _st), _new in GFSM_TABLE.items()]
+
+    def calc_output(self):
+        return self.x_outmap[self._state]
+
 
 class Rec(edzed.SBlock):
     """Destination probe: logs what it receives, optionally forwards."""
@@ -425,6 +518,10 @@ class Rec(edzed.SBlock):
 
 
 def real_filter(kind, arg):
+    if kind == 'addout':
+        return edzed.DataEdit.add_output('now', arg)
+    if kind == 'ifout':
+        return edzed.IfOutput(arg)
     if kind == 'pass':
         return lambda data: True
     if kind == 'one':
@@ -462,6 +559,8 @@ def real_filter(kind, arg):
         return edzed.DataEdit.permit('value', 'source')
     if kind == 'empty':
         return lambda data: {}
+    if kind == 'veq':
+        return lambda data: data.get('value', NOVAL) == arg
     raise PlanError(f"unknown filter {kind!r}")
 
 
@@ -550,8 +649,7 @@ class Harness:
             raise PlanError('no blocks')
         spec = {}
         for b in blocks:
-            if not isinstance(b, dict) or b.get('kind') not in (
-                    'setter', 'input', 'counter', 'func', 'rec'):
+            if not isinstance(b, dict) or b.get('kind') not in SENDER_KINDS + ('rec',):
                 raise PlanError('bad block')
             if b['name'] in spec:
                 raise PlanError('duplicate name')
@@ -585,10 +683,19 @@ class Harness:
                     self.run.fired('reach:shared_event_object')
                     continue
                 dest = es['dest']
-                check_edge(owner, dest)
-                dkind = spec[dest]['kind']
+                if dest == '_ctrl':
+                    # the automatically created control block: stops the simulation
+                    dkind = 'ctrl'
+                    if '_ctrl' not in self.model.blocks:
+                        self.model.add(Blk('_ctrl', 'ctrl', UNDEF))
+                        self.kind['_ctrl'] = 'ctrl'
+                else:
+                    check_edge(owner, dest)
+                    dkind = spec[dest]['kind']
                 allowed = {'rec': REC_ETYPES, 'setter': SETTER_ETYPES, 'input': INPUT_ETYPES,
-                           'counter': ('inc', 'dec')}.get(dkind)
+                           'counter': ('inc', 'dec'), 'timer': TIMER_ETYPES,
+                           'inputexp': INPUTEXP_ETYPES, 'gfsm': GFSM_ETYPES,
+                           'ctrl': CTRL_ETYPES}.get(dkind)
                 if allowed is None:
                     raise PlanError('event to a combinational block')
                 etype = es['etype']
@@ -609,9 +716,14 @@ class Harness:
                 mfilters = []
                 for k, fs in enumerate(fl.get('list', [])):
                     fid = f"{owner}.{key}{idx}.f{k}"
-                    rfilters.append(self.filter_probe(fid, real_filter(fs['k'], fs.get('a'))))
                     arg = fs.get('a')
-                    mfilters.append((fid, fs['k'], tuple(arg) if isinstance(arg, list) else arg))
+                    if fs['k'] == 'veq':
+                        arg = self.val(arg)
+                    elif fs['k'] in ('addout', 'ifout'):
+                        if arg != owner or key == 'f':
+                            raise PlanError('output reading filter outside its sender')
+                    rfilters.append(self.filter_probe(fid, real_filter(fs['k'], arg)))
+                    mfilters.append((fid, fs['k'], tuple(arg) if fs['k'] == 'edge' and isinstance(arg, list) else arg))
                 form = fl.get('form', 'omit')
                 kwargs = {}
                 if form == 'single' and len(rfilters) == 1:
@@ -627,7 +739,7 @@ class Harness:
                 target = dest
                 if not es.get('byname') and dest in created:
                     target = created[dest]
-                elif dest not in created:
+                elif dest not in created and dest != '_ctrl':
                     self.run.fired('reach:dest_by_name_created_later')
                 try:
                     robj = edzed.Event(target, retype, **kwargs)
@@ -674,10 +786,36 @@ class Harness:
                     if kind == 'setter':
                         mb.init = self.val(b['init'])
                         mb.alt = self.val(b.get('alt', 0))
+                        if b.get('stopval') is not None:
+                            mb.stopval = self.val(b['stopval'])
+                        kwargs.update(x_alt=mb.alt, x_stopval=mb.stopval, x_stop_hook=self.stop_assign)
                         if b.get('initvia') == 'def':
-                            blk = Setter(name, x_reg=NOVAL, x_alt=mb.alt, initdef=mb.init, **kwargs)
+                            blk = Setter(name, x_reg=NOVAL, initdef=mb.init, **kwargs)
                         else:
-                            blk = Setter(name, x_reg=mb.init, x_alt=mb.alt, **kwargs)
+                            blk = Setter(name, x_reg=mb.init, **kwargs)
+                    elif kind == 'timer':
+                        mb.init = b.get('init', 'off')
+                        mb.restartable = bool(b.get('restartable', True))
+                        if mb.init not in ('on', 'off'):
+                            raise PlanError('bad timer state')
+                        blk = edzed.Timer(name, restartable=mb.restartable, initdef=mb.init, **kwargs)
+                    elif kind == 'inputexp':
+                        mb.expired = self.val(b.get('expired'))
+                        if b.get('init') is not None:
+                            mb.has_init = True
+                            mb.init = self.val(b['init'])
+                            kwargs['initdef'] = mb.init
+                        # (the value never expires within a run: C02 is not about timers)
+                        blk = edzed.InputExp(name, duration=1000.0, expired=mb.expired, **kwargs)
+                    elif kind == 'gfsm':
+                        omap = b.get('outmap')
+                        if not isinstance(omap, dict) or sorted(omap) != ['a', 'b', 'c']:
+                            raise PlanError('bad outmap')
+                        mb.outmap = {st: UNDEF if v == 'U' else self.val(v) for st, v in omap.items()}
+                        mb.init = b.get('init', 'a')
+                        if mb.outmap.get(mb.init, UNDEF) is UNDEF:
+                            raise PlanError('initial state without output')
+                        blk = GFsm(name, initdef=mb.init, x_outmap=mb.outmap, **kwargs)
                     elif kind == 'input':
                         mb.init = self.val(b['init'])
                         mb.check = b.get('check')
@@ -728,6 +866,7 @@ class Harness:
                 self.src_changes[name] = 0
             elif kind != 'rec':
                 self.wrap_sender(name, blk)
+        self.senders = [(n, blk) for n, blk in self.real.items() if self.kind[n] != 'rec']
         self.funcs = [b['name'] for b in blocks if b['kind'] == 'func']
         self.func_srcs = {b['name']: list(b.get('src', [])) for b in blocks if b['kind'] == 'func'}
 
@@ -742,7 +881,26 @@ class Harness:
         return probe
 
     def rec_log(self, name, etype, data):
-        self.log.append(('R', name, etype, data))
+        # ... and what every sender's output is at this very moment
+        self.log.append(('R', name, etype, data, {n: blk.output for n, blk in self.senders}))
+
+    def stop_assign(self, blk):
+        """Setter.stop(): one more assignment, while the simulation is being cleaned up."""
+        name = blk.name
+        if self.active is not None:
+            self.fail('C02/harness/nested-stop', f"{name} stopped inside {self.active}")
+            blk.set_output(blk.x_stopval)
+            return
+        self.begin('stop', name)
+        try:
+            blk.set_output(blk.x_stopval)
+        finally:
+            try:
+                exp = self.model.stop_top(name)
+            except ModelError as err:
+                self.fail('C02/unexpected-assignment', f"{name}: {err}")
+                exp = None
+            self.end(exp, 'stop', name)
 
     def wrap_sender(self, name, blk):
         orig = blk.set_output
@@ -880,7 +1038,7 @@ class Harness:
                 if e[0] == 'A' and not e[3]['changed']:
                     shape.append('u')
         run.beh(kind, self.kind.get(name, '?'), ''.join(shape))
-        if self.phase == 'run':
+        if self.phase in ('run', 'stop'):
             self.delivered_after_init += nrec
         if expected is None or self.dead:
             return
@@ -888,21 +1046,29 @@ class Harness:
         if not self.dead:
             self.check_outputs(f"after {kind} {name}")
 
+    def output_differs(self, name, expected, out):
+        """None | 'mismatch' | 'retained' (equal, but not the object the model retains)."""
+        if self.same(expected, out):
+            return None
+        if out is UNDEF or expected is UNDEF or bool(expected != out):
+            return 'mismatch'
+        mb = self.model.blocks[name]
+        if mb.on_output or mb.on_every:
+            # (identity of the retained object matters only to a block that sends events)
+            return 'retained'
+        return None
+
     def check_outputs(self, where):
-        for name, blk in self.real.items():
+        for name, blk in self.senders:
             kind = self.kind[name]
-            if kind == 'rec':
-                continue
             mb = self.model.blocks[name]
             out = blk.output
-            if self.same(mb.out, out):
-                continue
-            if out is UNDEF or mb.out is UNDEF or bool(mb.out != out):
+            diff = self.output_differs(name, mb.out, out)
+            if diff == 'mismatch':
                 self.fail(f"C02/output-mismatch/{kind}",
                           f"{where}: output of {name} is {self.show(out)}, the events/assignments "
                           f"say {self.show(mb.out)}")
-            elif mb.on_output or mb.on_every:
-                # (identity of the retained object matters only to a block that sends events)
+            elif diff == 'retained':
                 self.fail(f"C02/retained-output/{kind}",
                           f"{where}: output of {name} is {self.show(out)}; the last change set "
                           f"{self.show(mb.out)} and later assignments compared equal")
@@ -942,16 +1108,23 @@ class Harness:
             if o is not None and o[0] == 'X':
                 self.fail('C02/exception', f"{where}: {o[1]}: {o[2]}")
                 return
+            if e is not None and e[0] == 'A' and (o is None or o[0] != 'A'):
+                what = 'changing' if e[3]['changed'] else 'unchanged (on_every_output is due)'
+                self.fail(f"C02/missing-assignment/{self.kind[e[1]]}",
+                          f"{where}: {e[1]} did not assign its output; expected "
+                          f"{self.show_entry(e)} ({what}), observed "
+                          f"{self.show_entry(o) if o else 'nothing'}")
+                return
             rest_e = sorted(self.key(x) for x in exp[i:])
             rest_o = sorted(self.key(x) for x in obs[i:])
             if rest_e == rest_o:
                 # same actions, different order
                 site = 'configured-order'
-                meta_e = e[-1] if e[0] in 'RF' else None
+                meta_e = self.meta(e) if e[0] in 'RF' else None
                 meta_o = None
                 for x in exp[i:]:
                     if self.key(x) == self.key(o) and x[0] in 'RF':
-                        meta_o = x[-1]
+                        meta_o = self.meta(x)
                         break
                 if (meta_e and meta_o and meta_e['src'] == meta_o['src']
                         and meta_e['list'] != meta_o['list']):
@@ -967,7 +1140,7 @@ class Harness:
                 elif self.key(e) in [self.key(x) for x in obs[i + 1:]]:
                     e = None        # the observed action is extra
             if e is not None and e[0] in 'RF' and (o is None or o[0] in 'ZA'):
-                meta = e[-1]
+                meta = self.meta(e)
                 what = 'changing' if meta['changed'] else 'unchanged'
                 lst = {'o': 'on_output', 'e': 'on_every_output', 'f': 'forward'}[meta['list']]
                 self.fail(f"C02/missing-event/{self.kind[meta['src']]}-{lst}",
@@ -991,9 +1164,13 @@ class Harness:
     def key(entry):
         return (entry[0], entry[1])
 
+    @staticmethod
+    def meta(entry):
+        return entry[4] if entry[0] == 'R' else entry[2]
+
     def compare_reception(self, e, o, where):
-        _r, dest, etype, data, meta = e
-        _r, _dest, oetype, odata = o
+        _r, dest, etype, data, meta, outs = e
+        _r, _dest, oetype, odata, oouts = o
         src = meta['src'] if meta else '?'
         skind = self.kind.get(src, 'ext')
         lst = {'o': 'on_output', 'e': 'on_every_output', 'f': 'forward'}.get(
@@ -1028,6 +1205,18 @@ class Harness:
                 self.fail('C02/data', f"{desc}: item {key} = {self.show(odata[key])}, the filters "
                                       f"left {self.show(data[key])}")
                 return False
+        # the outputs of the senders while the handler runs (the sender of this event first)
+        for name in sorted(outs, key=lambda n: n != src):
+            diff = self.output_differs(name, outs[name], oouts.get(name, UNDEF))
+            if diff is None:
+                continue
+            role = 'sender' if name == src else 'other'
+            self.fail(f"C02/output-during-delivery/{role}-{self.kind[name]}"
+                      + ('/identity' if diff == 'retained' else ''),
+                      f"{desc}: while the handler runs the output of {name} is "
+                      f"{self.show(oouts.get(name, UNDEF))}, expected {self.show(outs[name])}"
+                      + (f" (= the delivered value)" if name == src and lst != 'forward' else ''))
+            return False
         return True
 
     # ---- driver ----
@@ -1035,10 +1224,11 @@ class Harness:
         run = self.run
         name = op.get('blk')
         kind = self.kind.get(name)
-        if kind not in ('setter', 'input', 'counter'):
+        if kind not in ('setter', 'input', 'counter') + FSM_KINDS:
             raise PlanError('op addressed to a non-sender')
         etype = op.get('ev')
-        allowed = {'setter': SETTER_ETYPES, 'input': INPUT_ETYPES, 'counter': COUNTER_ETYPES}[kind]
+        allowed = {'setter': SETTER_ETYPES, 'input': INPUT_ETYPES, 'counter': COUNTER_ETYPES,
+                   'timer': TIMER_ETYPES, 'inputexp': INPUTEXP_ETYPES, 'gfsm': GFSM_ETYPES}[kind]
         if etype not in allowed:
             raise PlanError('bad op event')
         data = {}
@@ -1051,6 +1241,8 @@ class Harness:
                 if not isinstance(op['amt'], int):
                     raise PlanError('bad amount')
                 data['amount'] = op['amt']
+        elif kind in ('timer', 'gfsm'):
+            pass
         else:
             data['value'] = self.val(op.get('v'))
         if self.active is not None:
@@ -1099,7 +1291,8 @@ def execute(plan, trace=False):
                 if circuit.is_ready():
                     har.phase = 'pre'
                     for op in pre_ops:
-                        har.do_op(op)
+                        if circuit.is_ready():
+                            har.do_op(op)
                     har.phase = 'init'
             init_err = None
             try:
@@ -1109,10 +1302,12 @@ def execute(plan, trace=False):
             har.stray('after the initialisation')
             har.phase = 'run'
             if init_err is not None:
-                har.fail('C02/unexpected-abort', f"start-up failed: {init_err}")
+                # (legal when an initial value asked the control block to stop the simulation)
+                if model.stop_requested is None:
+                    har.fail('C02/unexpected-abort', f"start-up failed: {init_err}")
             else:
                 for name, mb in model.blocks.items():
-                    if mb.kind not in ('func', 'rec') and not mb.inited:
+                    if mb.kind not in ('func', 'rec', 'ctrl') and not mb.inited:
                         har.fail('C02/harness/not-initialised',
                                  f"{name}: no initial assignment was observed")
                 if not har.dead:
@@ -1136,7 +1331,7 @@ def execute(plan, trace=False):
                         await asyncio.sleep(0.01)
             await asyncio.sleep(0.01)
             har.stray('end of the run')
-            if not har.dead and circuit.is_ready():
+            if not har.dead:
                 har.check_outputs('end of the run')
             err = None
             if not circuit.is_ready() and init_err is None:
@@ -1146,10 +1341,12 @@ def execute(plan, trace=False):
                 await circuit.shutdown()
             except Exception as exc:    # pylint: disable=broad-except
                 err = err or exc
-            if err is not None and init_err is None:
+            if err is not None and init_err is None and model.stop_requested is None:
                 har.fail('C02/unexpected-abort',
                          f"simulation ended with {type(err).__name__}: {err}")
             har.stray('after the stop')
+            if not har.dead:
+                har.check_outputs('after the stop')
             run.log("stopped", clean(err) if err else None)
             return simtask
 
